@@ -213,7 +213,11 @@ func (w *Worker) execCLI(args []string, visits []simapi.Visit, v *simapi.Variant
 	w.sink.records = nil
 	w.sink.visit = -1
 	simrt.SetMapPolicy(v.MapPolicy, v.MapSeed)
-	h, err := w.hooks.New(args, w.corpus.Fset, w.corpus.Sizes)
+	corpus := w.corpus
+	if v.Twin {
+		corpus = w.refCorpus()
+	}
+	h, err := w.hooks.New(args, corpus.Fset, corpus.Sizes)
 	if err != nil {
 		out.InitErr = err.Error()
 		out.Records = append([]logRecord(nil), w.sink.records...)
@@ -230,7 +234,7 @@ func (w *Worker) execCLI(args []string, visits []simapi.Visit, v *simapi.Variant
 		simrt.Start(v.Sched)
 	}
 	for i, vis := range visits {
-		cp := w.corpus.Pkgs[vis.Pkg]
+		cp := corpus.Pkgs[vis.Pkg]
 		if cp == nil {
 			panic("visit of unknown package " + vis.Pkg)
 		}
@@ -256,13 +260,18 @@ func (w *Worker) execCLI(args []string, visits []simapi.Visit, v *simapi.Variant
 
 // refForVisits computes the reference diagnostics per visit (canonical map
 // order, scheduler off). Must be called while no simulation is active.
-func (w *Worker) refForVisits(wl *Workload, visits []simapi.Visit) (perVisit [][]Diag, panics []string) {
+func (w *Worker) refForVisits(wl *Workload, visits []simapi.Visit, cliLevel bool) (perVisit [][]Diag, panics []string) {
 	simrt.SetMapPolicy(simrt.MapCanonical, 0)
 	for _, vis := range visits {
 		var ds []Diag
 		for _, fi := range vis.Files {
 			for _, c := range wl.Checkers {
-				e := w.refDiagsPerm(c, wl.Params[c], wl.GoVersion, vis.Pkg, fi, vis.DeclSeed)
+				var e *RefEntry
+				if cliLevel {
+					e = w.refDiagsCLI(c, wl.Params[c], wl.GoVersion, vis.Pkg, fi, vis.DeclSeed)
+				} else {
+					e = w.refDiagsPerm(c, wl.Params[c], wl.GoVersion, vis.Pkg, fi, vis.DeclSeed)
+				}
 				if e.Panic != "" {
 					panics = append(panics, fmt.Sprintf("%s on %s/%d: %s", c, vis.Pkg, fi, e.Panic))
 				}
